@@ -98,6 +98,29 @@ theorem c12_seq_visits (g : Graph) (cfg : Cfg) (root fuel : Nat) (o : Outcome) (
     · rcases hl with hl | hl <;> omega
     · exact (F.safe.lv c).1 (by rw [h1]; rfl)
 
+/-- The sequential walk never runs out of the model's fuel: there is a bound (visitor budget × (max degree + 2))
+such that with any larger fuel the outcome is `ok` or `abort`. So the statements about the sequential walk
+(`c12_seq_visits`, `c12_handler_cid_seq`, `c12_provider_seq`) are about *every* sequential walk. -/
+theorem c12_seq_fuel_ok (g : Graph) (cfg : Cfg) (root : Nat) :
+    ∃ F, ∀ fuel, F ≤ fuel → (seqWalk g cfg fuel root 0 {}).1 ≠ .fuel := by
+  obtain ⟨M, hB⟩ := bounded_exists g root
+  exact ⟨seqFuel g cfg M, fun fuel hf => seqWalk_fuel_ok hB fuel hf⟩
+
+/-- … packaged: for every large enough fuel the walk completes or aborts; if it completes the visited set is
+exactly `Within`; in both cases only nodes within the limit were visited. -/
+theorem c12_seq_total (g : Graph) (cfg : Cfg) (root : Nat) :
+    ∃ F, ∀ fuel, F ≤ fuel → ∃ o s', seqWalk g cfg fuel root 0 {} = (o, s') ∧ o ≠ .fuel ∧
+      (o = .ok → ∀ c, Visited s'.logs c ↔ Within g cfg root c) ∧ (∀ c, Visited s'.logs c → Within g cfg root c) := by
+  obtain ⟨F, hF⟩ := c12_seq_fuel_ok g cfg root
+  refine ⟨F, fun fuel hf => ⟨(seqWalk g cfg fuel root 0 {}).1, (seqWalk g cfg fuel root 0 {}).2, rfl, hF fuel hf, ?_, ?_⟩⟩
+  · exact (c12_seq_visits g cfg root fuel _ _ rfl).1
+  · intro c hv
+    have h := c12_seq_visits g cfg root fuel _ _ rfl
+    cases ho : (seqWalk g cfg fuel root 0 {}).1 with
+    | ok => exact ((h.1 ho) c).1 hv
+    | abort e => exact h.2 e ho c hv
+    | fuel => exact absurd ho (hF fuel hf)
+
 /-! ## parallel walk: every schedule -/
 
 /-- the dispatcher/worker system is never stuck: while parallelWalkDepth has not returned, some event is enabled -/
